@@ -133,6 +133,37 @@ O_META = gramgen.Opts(terms='tok', max_rules=4, shaping=True, templates=True, ig
                       tok_sets=[['a', '\n', 'b', 'c'], ['aa', 'ab', '\n', 'c'], ['x', '\n', 'yy', 'z']])
 
 
+# pass-through chains of ?-rules (precedence climbing): a tree inlined by one ?-rule together with filtered delimiters is inlined
+# again by further single-child ?-rules before it becomes the first/last child of a real node
+O_META_UNIT = gramgen.Opts(terms='tok', max_rules=6, shaping=True, ignore=True, acyclic=True, unit_bias=True, max_alts=3, max_items=3, depth=1,
+                           tok_sets=[['a', '\n', 'b', 'c'], ['x', '\n', 'yy', 'z']])
+
+
+def _r(name, alts, mod=''):
+    return {'name': name, 'mod': mod, 'prio': None, 'params': [], 'alts': [{'items': a, 'alias': al} for a, al in alts]}
+
+
+EXPR_G = {'rules': [_r('start', [([['n', 'sum']], None)]),
+                    _r('sum', [([['n', 'product']], None), ([['n', 'sum'], ['lit', '+', ''], ['n', 'product']], 'add')], '?'),
+                    _r('product', [([['n', 'atom']], None), ([['n', 'product'], ['lit', '*', ''], ['n', 'atom']], 'mul')], '?'),
+                    _r('atom', [([['t', 'N']], None), ([['lit', '(', ''], ['n', 'sum'], ['lit', ')', '']], None), ([['lit', '-', ''], ['n', 'atom']], 'neg')], '?')],
+          'terms': [{'name': 'N', 'prio': None, 'pat': {'kind': 'str', 'value': '1', 'flags': ''}, 'ex': ['1']},
+                    {'name': 'WS', 'prio': None, 'pat': {'kind': 're', 'value': '[ \\n]', 'flags': ''}, 'ex': [' ', '\n']}],
+          'ignore': ['WS']}
+
+
+@st.composite
+def expr_cases(draw):
+    def e(d):
+        c = draw(st.integers(0, 6)) if d > 0 else 0
+        if c <= 1: return '1'
+        if c == 2: return '(' + e(d - 1) + ')'
+        if c == 3: return '-' + e(d - 1)
+        sp = draw(st.sampled_from(['', ' ', '\n', ' \n']))
+        return e(d - 1) + sp + draw(st.sampled_from(['+', '*'])) + sp + e(d - 1)
+    return {'g': EXPR_G, 'texts': [e(3) for _ in range(4)], 'keep_all': False, 'placeholders': True}
+
+
 def norm_meta(t, named):
     if t is None: return None
     if isinstance(t, Tree):
@@ -212,49 +243,53 @@ def show_spans(t):
     return '%s%s(%s)' % (t[1], list(t[3]) if t[3] else '[]', ', '.join(show_spans(c) for c in t[2]))
 
 
-def _has_collapsed_token_case(got, want):
-    """true if the trees differ only in nodes whose first or last *kept* child is a token while the reference extent reaches
-    beyond it (a ?-rule collapsed to a bare token and its filtered siblings were lost: tokens have no container slots)"""
-    ok = [True]
+def _diff_kinds(got, want):
+    """classifies every node whose extent differs: 'adopt' (reference extent empty but the node carries a meta), 'token' (the first or
+    last positioned child is a token and the node's extent lies inside the reference extent: filtered siblings of a ?-rule that
+    collapsed to that token were lost), 'child' (only inherited from a differing child), 'other'"""
+    kinds = set()
     def walk(a, b):
         if a is None or a[0] != 'N': return
         if a[3] != b[3]:
-            kids = [k for k in a[2] if k is not None]
-            edge_tok = bool(kids) and (kids[0][0] == 'T' or kids[-1][0] == 'T')
-            inner = b[3] is not None and a[3] is not None and b[3][0] <= a[3][0] and a[3][1] <= b[3][1]
-            if not (edge_tok and inner) and not any(k[0] == 'N' and k[3] != kb[3] for k, kb in zip(a[2], b[2]) if k is not None and kb is not None and k[0] == 'N'):
-                ok[0] = False
+            kids = [k for k in a[2] if k is not None and (k[0] == 'T' or (k[0] == 'N' and k[3] is not None))]
+            if b[3] is None and a[3] is not None:
+                kinds.add('adopt')
+            elif kids and (kids[0][0] == 'T' or kids[-1][0] == 'T') and b[3] is not None and a[3] is not None and b[3][0] <= a[3][0] and a[3][1] <= b[3][1]:
+                kinds.add('token')
+            elif any(k is not None and kb is not None and k[0] == 'N' and k[3] != kb[3] for k, kb in zip(a[2], b[2])):
+                kinds.add('child')
+            else:
+                kinds.add('other')
         for x, y in zip(a[2], b[2]): walk(x, y)
     walk(got, want)
-    return ok[0]
+    return kinds
+
+
+def _has_collapsed_token_case(got, want):
+    k = _diff_kinds(got, want)
+    return 'token' in k and 'other' not in k
 
 
 def _only_empty_adopting(got, want):
-    """true if the only differences are nodes whose rule matched no token (reference extent empty) but that carry a meta"""
-    ok = [True]; seen = [False]
-    def walk(a, b):
-        if a is None or a[0] != 'N': return
-        if a[3] != b[3]:
-            if b[3] is None and a[3] is not None: seen[0] = True
-            else: ok[0] = False
-        for x, y in zip(a[2], b[2]): walk(x, y)
-    walk(got, want)
-    return ok[0] and seen[0]
+    k = _diff_kinds(got, want)
+    return 'adopt' in k and 'other' not in k and 'token' not in k
 
 
 KNOWN = {'C06-collapsed-token-loses-container-span': lambda case, v: bool(v.detail.get('collapsed_token')),
          'C06-empty-child-adopts-collapsed-rule-span': lambda case, v: bool(v.detail.get('empty_child_adopts'))}
 
 
-def meta_strat(n, max_len):
-    return st.tuples(gramgen.grammar_and_inputs(O_META, max_len=max_len, n=n), st.integers(0, 4), st.integers(0, 3)).map(
+def meta_strat(n, max_len, o=None):
+    return st.tuples(gramgen.grammar_and_inputs(o or O_META, max_len=max_len, n=n), st.integers(0, 4), st.integers(0, 3)).map(
         lambda t: {'g': t[0]['g'], 'texts': t[0]['texts'], 'keep_all': t[1] == 0, 'placeholders': t[2] != 0})
 
 
 def phases(tier):
     k = 12 if tier == 'thorough' else 1
     return [Phase('flat-newline-spellings', 'hypothesis', strategy=flat_cases(), max_examples=16000 * k, check=check_flat),
-            Phase('tree-meta', 'hypothesis', strategy=meta_strat(3, 9), max_examples=12000 * k, check=check_meta)]
+            Phase('tree-meta', 'hypothesis', strategy=meta_strat(3, 9), max_examples=12000 * k, check=check_meta),
+            Phase('tree-meta-unit-chains', 'hypothesis', strategy=meta_strat(3, 9, O_META_UNIT), max_examples=8000 * k, check=check_meta),
+            Phase('tree-meta-expression-grammar', 'hypothesis', strategy=expr_cases(), max_examples=2000 * k, check=check_meta)]
 
 
 check = check_flat
